@@ -630,3 +630,13 @@ package container
 //@   requires sep(c, c.socket) && sep(c.socket, c.socket.Socket) && sep(c, c.socket.Socket)
 //@   assigns SB._all, B._all, H.st
 //@   loop 0: invariant c == old(c) && c.socket == old(c.socket) && c.socket.Socket == old(c.socket.Socket) && c.socket.Socket.UnixConn == old(c.socket.Socket.UnixConn) && c.socket.encoder == old(c.socket.encoder)
+
+// the host's view of the descriptor list it sends along with an execve command: same length, same numbers
+//@ func container.uintptrSliceToInt props C06
+//@   arith int
+//@   overflow wrap
+//@   assigns nothing
+//@   ensures len(result) == len(s)
+//@   ensures forall k int :: 0 <= k && k < len(s) ==> result[k] == int(s[k])
+//@   loop 0: invariant -1 <= rangeindex && rangeindex < len(s) && len(r) == len(s) && fresh(r) && soff(r) == 0
+//@   loop 0: invariant forall k int :: 0 <= k && k <= rangeindex ==> r[k] == int(s[k])
